@@ -80,8 +80,23 @@ def method_mutated_names(body):
 def exec_for(ex, s, env):
     if s.orelse:
         raise Unsupported("for/else at %d" % s.lineno)
-    ordinal = ex.loop_ordinals[id(s)]
+    ordinal = ex.loop_ordinals.get(id(s), -1)      # (-1: a loop of a helper executed in place)
     it = ex.eval(s.iter, env)
+    if isinstance(it, VDict) or (isinstance(it, VCursor) and it.kind in ("dictvalues", "dictitems")):
+        # direct iteration over a registry dict: Python raises RuntimeError if the body changes its size
+        fld = (it if isinstance(it, VDict) else it.d).field
+        for n_ in ast.walk(ast.Module(body=s.body, type_ignores=[])):
+            tgt = None
+            if isinstance(n_, ast.Delete):
+                tgt = n_.targets[0]
+            elif isinstance(n_, ast.Assign):
+                tgt = n_.targets[0]
+            elif isinstance(n_, ast.Call) and isinstance(n_.func, ast.Attribute) and n_.func.attr in ("pop", "clear", "popitem", "setdefault"):
+                tgt = n_.func.value
+            if isinstance(tgt, ast.Subscript):
+                tgt = tgt.value
+            if isinstance(tgt, ast.Attribute) and tgt.attr == fld:
+                raise Unsupported("loop at %d changes the dict it iterates over" % s.lineno)
     spec = ex.loop_specs.get(id(s))
     if isinstance(it, VTuple) and not it.items:
         return
